@@ -10,7 +10,8 @@
 From Coq Require Import List ZArith Bool Lia.
 From Coq.Strings Require Import Byte.
 From Verif Require Import Base.Bytes Base.BE Wire.TType Wire.WVal Wire.Codec Wire.CodecFacts
-  Wire.Schema Wire.Value Wire.Std Wire.StdFacts Wire.Fast Wire.FastFacts Wire.FastReadFacts Wire.FastStdFacts.
+  Wire.Schema Wire.Value Wire.Std Wire.StdFacts Wire.Fast Wire.FastFacts Wire.FastReadFacts Wire.FastStdFacts
+  Wire.FastBitset Wire.FastBitsetFacts Wire.FastBitsetLink.
 Import ListNotations.
 Open Scope Z_scope.
 
@@ -127,6 +128,30 @@ Theorem C10_fast_read_ignores_unknown : forall e s init wfs rest v,
   fast_read e s init (enc (WStruct wfs) ++ rest) = FOk (v, Z.of_nat (length (enc (WStruct wfs)))).
 Proof. exact fast_read_ignores_unknown. Qed.
 Print Assumptions C10_fast_read_ignores_unknown.
+
+(* ---- the required-field bit set (generator/fastgo/bitset.go; model Wire/FastBitset.v, tied to the emitted text
+        for n = 0 .. 72 by the correspondence). For EVERY number n of required fields and every collection of
+        fields read (any order, repeats allowed): the tests GenIfNotSet emits, run on the words the GenSetbit
+        statements produced, report exactly the first added field that was not read; in particular they report
+        something iff some required field is unset. ---- *)
+
+Theorem C10_bitset_tests_spec : forall n seen, Forall (fun j => (j < n)%nat) seen ->
+  run (state n seen) (gen_if_not_set n) = first_unset n seen.
+Proof. exact gen_if_not_set_spec. Qed.
+Print Assumptions C10_bitset_tests_spec.
+
+Theorem C10_bitset_tests_fire_iff : forall n seen, Forall (fun j => (j < n)%nat) seen ->
+  (exists v, run (state n seen) (gen_if_not_set n) = Some v) <-> (exists i, (i < n)%nat /\ ~ In i seen).
+Proof. exact gen_if_not_set_fires_iff. Qed.
+Print Assumptions C10_bitset_tests_fire_iff.
+
+(* ... and that is the required-field check of the reader model: fields are added in id order, so the emitted
+   code names the first missing required field in id order, which is Fast.fast_first_missing *)
+Theorem C10_bitset_is_first_missing : forall s seen,
+  wf_struct s = true -> Forall (fun id => In id (req_ids s)) seen ->
+  bitset_first_missing s seen = fast_first_missing s seen.
+Proof. exact bitset_first_missing_wf. Qed.
+Print Assumptions C10_bitset_is_first_missing.
 
 (* ---- truncated input. Every proper prefix of an encoding of a value of the struct itself — every field known
         to the reader and typed as its schema says (conforms: what to_wire produces, StdFacts.to_w_conforms),
